@@ -189,7 +189,11 @@ structure LinkInv (p : GProg) (I : St → Prop) : Prop where
   reent : ∀ σ x, I σ → I { σ with reent := x }
   fflag : ∀ σ x, I σ → I { σ with fflag := x }
   vflag : ∀ σ x, I σ → I { σ with vflag := x }
+  clink : ∀ σ x, I σ → I { σ with clink := x }
+  vlink : ∀ σ x, I σ → I { σ with vlink := x }
   mark : ∀ o i σ, I σ → I (ownerMark o i σ)
+  begd : ∀ o i σ, I σ → I (ownerBeginDflt o i σ)
+  endc : ∀ k v σ, I σ → I (endConst k v σ)
   setd : ∀ o i v σ, I σ → I (ownerSetDflt o i v σ)
   root : ∀ σ m n target lt, I σ → lookupType p m n = some (.typedef target) →
     resolveExpr p m target = some lt → I { σ with root := aset (m, n) (rootIn p σ lt) σ.root }
@@ -288,7 +292,7 @@ theorem blockInv (p : GProg) (I : St → Prop) (hI : LinkInv p I) : ∀ f, Block
           · exact iFields _ _ _ _ _ _ hr2 h
           · split at h
             · rename_i σ3 v hv
-              have hr3 : I σ3 := iVal _ _ _ _ _ _ hr2 hv
+              have hr3 : I σ3 := iVal _ _ _ _ _ _ (hI.begd _ _ _ hr2) hv
               exact iFields _ _ _ _ _ _ (hI.setd _ _ _ _ hr3) h
             · cases h
             · cases h
@@ -300,15 +304,19 @@ theorem blockInv (p : GProg) (I : St → Prop) (hI : LinkInv p I) : ∀ f, Block
       split at h
       · cases h
       · split at h
-        · cases h; exact hr
+        · split at h
+          · cases h
+          · cases h; exact hr
         · split at h
           · rename_i σ1 lt hty
             have hr1 : I σ1 := iTy _ _ _ _ _ (hI.cflag _ _ hr) hty
             split at h
             · rename_i σ2 v hv
               cases h
-              have hr2 : I σ2 := iVal _ _ _ _ _ _ (hI.ctype _ _ hr1) hv
-              exact hI.cval _ _ hr2
+              have hr1' : I { σ1 with ctype := (m, n) :: σ1.ctype, clink := (m, n) :: σ1.clink } :=
+                hI.clink _ ((m, n) :: σ1.clink) (hI.ctype _ ((m, n) :: σ1.ctype) hr1)
+              have hr2 : I σ2 := iVal _ _ _ _ _ _ hr1' hv
+              exact hI.endc _ _ _ hr2
             · cases h
             · cases h
           · cases h
@@ -394,7 +402,9 @@ theorem blockInv (p : GProg) (I : St → Prop) (hI : LinkInv p I) : ∀ f, Block
           · cases h
           · split at h
             · split at h
-              · cases h; exact hr
+              · split at h
+                · cases h; exact hr
+                · cases h
               · cases h
             · split at h
               · cases h
@@ -451,10 +461,12 @@ theorem blockInv (p : GProg) (I : St → Prop) (hI : LinkInv p I) : ∀ f, Block
             · cases h
             · exact iSF _ _ _ _ _ _ _ _ _ hr h
           · split at h
-            · rename_i σ1 v hv
-              exact iSF _ _ _ _ _ _ _ _ _ (iVal _ _ _ _ _ _ hr hv) h
             · cases h
-            · cases h
+            · split at h
+              · rename_i σ1 v hv
+                exact iSF _ _ _ _ _ _ _ _ _ (iVal _ _ _ _ _ _ hr hv) h
+              · cases h
+              · cases h
 
 /-! ### … and of functions, services, modules, the walk, `compile` -/
 
@@ -471,6 +483,13 @@ theorem forEach_inv {α : Type} (I : St → Prop) (g : α → St → Res St)
     · rename_i σ1 hx; exact ih _ _ (hg _ _ _ hi hx) h
     · cases h
     · cases h
+
+theorem endService_inv {p : GProg} (I : St → Prop) (hI : LinkInv p I) (k : Nat × Name) (r : Res St) (σ' : St)
+    (hr : ∀ σa, r = .ok σa → I σa) (h : endService k r = .ok σ') : I σ' := by
+  cases r with
+  | ok σa => simp only [endService] at h; cases h; exact hI.vlink _ _ (hr σa rfl)
+  | err => cases h
+  | fuel => cases h
 
 theorem linkFunc_inv (p : GProg) (I : St → Prop) (hI : LinkInv p I) (fuel m : Nat) (svc : Name) (fn : GFunc) (σ σ' : St)
     (hr : I σ) (h : linkFunc fuel p m svc fn σ = .ok σ') : I σ' := by
@@ -529,15 +548,20 @@ theorem service_inv (p : GProg) (I : St → Prop) (hI : LinkInv p I) (o : Orders
       · cases h
       · rename_i s hls
         split at h
-        · cases h; exact hr
         · split at h
-          · exact forEach_inv I _ (fun x σ σ' => hfn m n s x σ σ') _ _ _ (hI.vflag _ _ hr) h
+          · cases h
+          · cases h; exact hr
+        · have hr0 : I { σ with vflag := (m, n) :: σ.vflag, vlink := (m, n) :: σ.vlink } :=
+            hI.vlink _ ((m, n) :: σ.vlink) (hI.vflag _ ((m, n) :: σ.vflag) hr)
+          split at h
+          · exact endService_inv I hI _ _ _ (fun σa ha => forEach_inv I _ (fun x σ σ' => hfn m n s x σ σ') _ _ _
+              hr0 ha) h
           · rename_i pname hpn
             split at h
             · rename_i σ1 pk hres
-              have hr1 : I σ1 := iR _ _ _ _ _ (hI.vflag _ _ hr) hres
-              exact forEach_inv I _ (fun x σ σ' => hfn m n s x σ σ') _ _ _
-                (hI.vpar _ _ _ _ _ _ hr1 hls hpn (resolveSvc_resolves p o _ _ _ _ _ _ hres)) h
+              have hr1 : I σ1 := iR _ _ _ _ _ hr0 hres
+              exact endService_inv I hI _ _ _ (fun σa ha => forEach_inv I _ (fun x σ σ' => hfn m n s x σ σ') _ _ _
+                (hI.vpar _ _ _ _ _ _ hr1 hls hpn (resolveSvc_resolves p o _ _ _ _ _ _ hres)) ha) h
             · cases h
             · cases h
     · intro m n σ σ' k hr h
@@ -645,7 +669,11 @@ theorem rootsLinkInv (p : GProg) : LinkInv p (fun σ => RootsOk p σ.root) where
   reent _ _ h := h
   fflag _ _ h := h
   vflag _ _ h := h
+  clink _ _ h := h
+  vlink _ _ h := h
   mark o _ _ h := by cases o <;> exact h
+  begd o _ _ h := by cases o <;> exact h
+  endc _ _ _ h := h
   setd o _ _ _ h := by cases o <;> exact h
   root _ _ _ _ _ h hl hres := RootsOk.set h hl hres
   vpar _ _ _ _ _ _ h _ _ _ := h
@@ -669,7 +697,11 @@ theorem parentsLinkInv (p : GProg) : LinkInv p (fun σ => ParentsOk p σ.vpar) w
   reent _ _ h := h
   fflag _ _ h := h
   vflag _ _ h := h
+  clink _ _ h := h
+  vlink _ _ h := h
   mark o _ _ h := by cases o <;> exact h
+  begd o _ _ h := by cases o <;> exact h
+  endc _ _ _ h := h
   setd o _ _ _ h := by cases o <;> exact h
   root _ _ _ _ _ h _ _ := h
   vpar σ m n s pname pk h hl hp hr := by
